@@ -110,6 +110,9 @@ type Config struct {
 	Slashing             *SlashingCfg // nil: default x/slashing parameters (window of 100 blocks)
 	Gov                  *GovCfg      `json:",omitempty"` // nil: default x/gov parameters (deposit in "stake", two days)
 	GenesisUndelegations []delegationtypes.UndelegationRecord
+	// UnpricedAssets: asset indexes whose oracle token is not bound to the asset id, so that the
+	// oracle cannot price them: the voting-power update of an AVS that supports one fails
+	UnpricedAssets []int `json:",omitempty"`
 }
 
 // SlashingCfg sets the x/slashing parameters, so that downtime (validators missing from the
@@ -393,9 +396,15 @@ func BuildWorld(cfg Config) (*World, error) {
 	op.Tokens = []*oracletypes.Token{{}}
 	op.TokenFeeders = []*oracletypes.TokenFeeder{{}}
 	for i, a := range cfg.Assets {
+		bound := w.AssetIDs[i]
+		for _, u := range cfg.UnpricedAssets {
+			if u == i {
+				bound = ""
+			}
+		}
 		op.Tokens = append(op.Tokens, &oracletypes.Token{
 			Name: fmt.Sprintf("TOK%d", i), ChainID: 1, ContractAddress: fmt.Sprintf("0x%02d", i),
-			Decimal: a.PriceDecimal, Active: true, AssetID: w.AssetIDs[i],
+			Decimal: a.PriceDecimal, Active: true, AssetID: bound,
 		})
 	}
 	if cfg.OracleMaxNonce > 0 {
